@@ -50,6 +50,8 @@ import (
 	"encoding/json"
 	"errors"
 	"fmt"
+	"os"
+	"path/filepath"
 	"sort"
 	"strings"
 	"testing"
@@ -59,6 +61,7 @@ import (
 	"gopkg.in/tomb.v2"
 	"pgregory.net/rapid"
 
+	"github.com/snapcore/snapd/dirs"
 	"github.com/snapcore/snapd/overlord/auth"
 	"github.com/snapcore/snapd/overlord/snapstate"
 	"github.com/snapcore/snapd/overlord/snapstate/snapstatetest"
@@ -134,10 +137,10 @@ func c14Gen(t *rapid.T) c14Case {
 	// requests concentrate on two snaps so that they meet
 	focus := []string{rapid.SampledFrom(c14AppSnaps).Draw(t, "focus1"), rapid.SampledFrom(c14AppSnaps).Draw(t, "focus2")}
 	pickSnap := func() string {
-		switch rapid.IntRange(0, 9).Draw(t, "which") {
-		case 0, 1:
+		switch rapid.IntRange(0, 19).Draw(t, "which") {
+		case 0, 1, 2, 3:
 			return rapid.SampledFrom(c14AppSnaps).Draw(t, "snap")
-		case 2:
+		case 4:
 			return c14Snapd
 		default:
 			return rapid.SampledFrom(focus).Draw(t, "fsnap")
@@ -329,6 +332,16 @@ func c14NewHarness(c *check.C, cs c14Case, o *verifkit.Outcome) *c14H {
 		}
 	}
 	seed(c14Snapd, 3, 1, false, "snapd")
+	// the snap manager reads the info file of the current snapd (the fixture writes it for revisions 1 and 11 only)
+	for rev := 1; rev <= 3; rev++ {
+		infoFile := filepath.Join(dirs.SnapMountDir, c14Snapd, fmt.Sprint(rev), dirs.CoreLibExecDir, "info")
+		if err := os.MkdirAll(filepath.Dir(infoFile), 0755); err != nil {
+			panic("HARNESS: " + err.Error())
+		}
+		if err := os.WriteFile(infoFile, []byte(fmt.Sprintf("VERSION=%s\nSNAPD_APPARMOR_REEXEC=1\n", c14SnapdVersion(rev))), 0644); err != nil {
+			panic("HARNESS: " + err.Error())
+		}
+	}
 	return h
 }
 
@@ -699,7 +712,54 @@ func (h *c14H) isDowngrade(r worldReq, valid bool) bool {
 	return false
 }
 
+// adapt: when nothing stands in the way of the snap, an inapplicable request is turned
+// into the nearest applicable one (the generator cannot know the recorded state), so
+// that changes get started; requests that meet an unfinished change are issued as drawn.
+func (h *c14H) adapt(r worldReq) worldReq {
+	if r.Snap == c14Snapd {
+		return r
+	}
+	if _, ok := h.w.resolve(r); ok {
+		return r
+	}
+	if len(h.blockers([]string{r.Snap})) > 0 || len(h.exclusiveUnready()) > 0 {
+		return r
+	}
+	present, active := h.present(r.Snap)
+	switch {
+	case !present:
+		return worldReq{Op: "install", Snap: r.Snap, Channel: r.Channel, User: r.User}
+	case r.Op == "install":
+		r.Op, r.Rev = "refresh", 0
+	case !active:
+		return worldReq{Op: "enable", Snap: r.Snap}
+	case r.Op == "enable":
+		return worldReq{Op: "disable", Snap: r.Snap}
+	default:
+		// nothing to revert to / no other kept revision
+		r.Op, r.Rev, r.ByRev = "refresh", 0, false
+	}
+	return r
+}
+
 func (h *c14H) doReq(r worldReq, stale string) error {
+	if stale != "" {
+		// a stale request needs a store round trip: install of an absent snap or refresh of an active one
+		present, active := h.present(r.Snap)
+		switch {
+		case !present:
+			r, stale = worldReq{Op: "install", Snap: r.Snap}, "install"
+		case !active:
+			stale = ""
+		case r.Op == "install":
+			r, stale = worldReq{Op: "refresh", Snap: r.Snap}, "inhibit"
+		}
+		if stale == "install" && present {
+			stale = "inhibit"
+		}
+	} else {
+		r = h.adapt(r)
+	}
 	rr, valid := h.resolveOrRaw(r)
 	what := rr.String()
 	compute := func() (c14Expect, bool) {
@@ -846,8 +906,11 @@ func (h *c14H) doMany(op c14Op, stale bool) error {
 		// the store offers a new revision for every installed app snap, none for snapd
 		revnos := map[string]snap.Revision{}
 		for _, n := range c14AppSnaps {
+			// (instances of one snap share its id: one revision above all of them)
 			if snapst, ok := h.w.snapState(n); ok {
-				revnos[worldSnapID(n)] = snap.R(worldMax(worldSeq(snapst), 0) + 1)
+				if r := worldMax(worldSeq(snapst), 0) + 1; r > revnos[worldSnapID(n)].N {
+					revnos[worldSnapID(n)] = snap.R(r)
+				}
 			}
 		}
 		if snapst, ok := h.w.snapState(c14Snapd); ok {
